@@ -197,7 +197,7 @@ PROPS = {
     "C15": {
         "needs_bins": True,
         "trusted_base": COMMON_TB + ["the real `mocset query` binary, driven as a process; region MOCs are given as ASCII files"],
-        "assumptions": COMMON_ASSUME + ["position queries: the deepest-level index of the position is computed by cdshealpix in the harness (oracle for the hash only; positions are centres of depth-16 cells inside / at the edge of / outside stored ranges); cone queries (radii 0.05" .. 600", precisions 0..3, both modes, sequential and parallel): the cone MOC is computed in the harness by the library's own from_cone at the documented depth (cdshealpix geometry = trusted oracle for the REGION only) and the selection is judged by the model",
+        "assumptions": COMMON_ASSUME + ["position queries: the deepest-level index of the position is computed by cdshealpix in the harness (oracle for the hash only; positions are centres of depth-16 cells inside / at the edge of / outside stored ranges); cone queries (radii 0.05 .. 600 arcsec, precisions 0..3, both modes, sequential and parallel): the cone MOC is computed in the harness by the library's own from_cone at the documented depth (cdshealpix geometry = trusted oracle for the REGION only) and the selection is judged by the model",
             "`union` (moc region in both modes, identifier lists incl. unknown ids, positions) is driven at output depths below, equal to and above the stored depths"],
         "rule": "moc-sets of 3..6 MOCs stored at depths 11..16 around a common area (32- and 64-bit storage, valid and deprecated); query regions = 1 or 2 cells at depths 12..16 anchored on the "
                 "start, the end, the middle and the last index of a stored range, shifted by -1/0/+1 cell (regions smaller than and strictly inside one depth-13 cell, touching only the first or "
